@@ -269,6 +269,12 @@ package lite
 //@   at-call Copy as b2c: assert [backend-to-client] arg0 == src && arg1 == dst
 // Forward: route, dial (header + handshake), buffered bytes, then the pipe between the client's raw connection and
 // the dialled backend; no route or no backend pipes nothing.
+// The login path never asks dialRoute to re-encode the handshake on its own (that is the status path's business): the
+// handshake the client sent goes out as received unless a configured rewrite applies.
+//@ func Forward$2
+//@   props C31
+//@   at-call dialRoute as dial: assert [login-path-never-forces-a-re-encode] !arg7 && arg3 == route && streq(arg4, backendAddr) && arg5 == handshake && arg6 == pc
+//@   ensures called(dial)
 //@ func Forward
 //@   props C31
 //@   at-call findRoute as fr
